@@ -221,6 +221,16 @@ def check(case, ctx):
                 st, m = lib.call(p.chem_mass, w1 + w2)
                 if st != 'ok' or not lib.close(m, ref_mass(nz(exp)), 1e-6):
                     ctx.fail('additivity-mass', ref_mass(nz(exp)), m, formulas=[w1, w2])
+                # the separated forms concatenate with their separator and add up the same way
+                if (i + n) % 3 == 0:
+                    for sep in (' ', '|'):
+                        s1, s2 = lib.call(p.write_chem_formula, dict(c1), sep), lib.call(p.write_chem_formula, dict(c2), sep)
+                        if s1[0] != 'ok' or s2[0] != 'ok' or not s1[1] or not s2[1]:
+                            continue
+                        st, got = lib.call(p.parse_chem_formula, s1[1] + sep + s2[1], sep)
+                        ctx.evals += 1
+                        if st != 'ok' or nz(got) != nz(exp):
+                            ctx.fail('additivity-separated', nz(exp), got, formulas=[s1[1], s2[1]], sep=sep)
         ctx.sub_states = n
         ctx.sub_nontrivial = n
         ctx.outcome = n
